@@ -5,6 +5,7 @@ import (
 	"strconv"
 	"strings"
 
+	"github.com/nlnwa/whatwg-url/canonicalizer"
 	"github.com/nlnwa/whatwg-url/url"
 	"pgregory.net/rapid"
 
@@ -22,6 +23,10 @@ func derivedAgree(u *url.Url) string {
 	hostname, port, proto := u.Hostname(), u.Port(), u.Protocol()
 	scheme := strings.TrimSuffix(proto, ":")
 	wantV6 := strings.HasPrefix(hostname, "[") && strings.HasSuffix(hostname, "]")
+	if wantV6 {
+		// (under lax host parsing a bracketed text need not be an address)
+		_, wantV6 = spec.ParseIPv6(hostname[1 : len(hostname)-1])
+	}
 	if u.IsIPv6() != wantV6 {
 		return fmt.Sprintf("IsIPv6()=%v but Hostname() is %q (Href %q)", u.IsIPv6(), hostname, href)
 	}
@@ -92,6 +97,19 @@ func Check19(c CaseHist, r *core.Rec) {
 		return
 	}
 	r.Class("start:" + addrKind(iu))
+	// parsing through a predefined profile is parsing too: the URL values the profiles hand out
+	// (their hosts went through the hostname setter once more) must be as coherent
+	if !c.HasBase {
+		for _, pp := range c19Profiles {
+			if pu, perr := pp.p.Parse(string(c.Input)); perr == nil && pu != nil {
+				if msg := derivedAgree(pu); msg != "" {
+					r.Failf("after parsing %s with %s: %s", quote(string(c.Input)), pp.name, msg)
+					return
+				}
+				r.Class("profile-parse")
+			}
+		}
+	}
 	for i, op := range c.Ops {
 		k0, p0, s0 := addrKind(iu), iu.Port(), iu.Protocol()
 		switch op.Kind {
@@ -120,6 +138,11 @@ func Check19(c CaseHist, r *core.Rec) {
 		}
 	}
 }
+
+var c19Profiles = []struct {
+	name string
+	p    url.Parser
+}{{"GoogleSafeBrowsing", canonicalizer.GoogleSafeBrowsing}, {"WhatWgSortQuery", canonicalizer.WhatWgSortQuery}, {"New(WithRepeatedPercentDecoding(), WithRemovePort())", canonicalizer.New(canonicalizer.WithRepeatedPercentDecoding(), canonicalizer.WithRemovePort())}}
 
 var c19Hosts = []string{"1.2.3.4", "example.com", "[::1]", "0x7f.1", "h", "[1:2::3]", "127.0.0.1:0", "h:0", "h:80", "h:443", "[::2]:0", "4294967295", "1.2.3", "a.1.2.3.4.b", "1.2.3.4.", ""}
 var c19Ports = []string{"0", "", "80", "443", "21", "8080", "00", "000080", "65535"}
